@@ -773,15 +773,17 @@ class Interp:
             if fd is not None:
                 if fd.is_property:
                     return self.call_funcdef(fd, [o], {})
-                if attr in self.force_contract and self.contracts.has(attr) and not self._is_current(o, fd):
+                if self.forced(attr) and self.contracts.has(attr):
                     return ContractMethod(o, attr)
                 return BoundMethod(o, fd)
         if o.kind == "exception":
             raise Unsupported(f"exception attribute {attr}")
         raise Raise(self.bi.make_exc("AttributeError", f"{o!r} has no attribute {attr}"), self.where())
 
-    def _is_current(self, o, fd):
-        return False
+    def forced(self, attr):
+        if attr in self.force_contract:
+            return True
+        return any(p.endswith("*") and attr.startswith(p[:-1]) for p in self.force_contract)
 
     def setattr_(self, o, attr, v):
         if not isinstance(o, Obj):
